@@ -8,7 +8,8 @@ Local Open Scope N_scope.
 Inductive vkind := KString | KInt | KInt64 | KUInt | KUInt64 | KBool | KFloat | KDouble.
 
 (* a default value handed to a get*ValueDef call *)
-Inductive defval := DStr (s : option str) | DInt (z : Z) | DBool (b : bool) | DNone.
+(* DText: the decimal text of a float/double default (the harness converts it with strtof/strtod) *)
+Inductive defval := DStr (s : option str) | DInt (z : Z) | DBool (b : bool) | DText (t : str) | DNone.
 
 Inductive cmd :=
 | CNewKeyfile (o : nat) (d c : byte)
@@ -103,6 +104,8 @@ Definition typed_out (kd : vkind) (r : econf_err + option str) (def : defval) : 
       | KString, DStr d => OStr ECONF_NOKEY d
       | KBool, DBool d => OBool ECONF_NOKEY d
       | (KInt | KInt64 | KUInt | KUInt64), DInt d => OInt ECONF_NOKEY d
+      | KFloat, DText d => OText false ECONF_NOKEY (Some d)
+      | KDouble, DText d => OText true ECONF_NOKEY (Some d)
       | _, _ => ORc ECONF_NOKEY
       end
   | inl e => ORc e
